@@ -6,7 +6,13 @@ Request: `{"op":"exec","old":bool,"fin":bool,"cfg":{maxRestarts:int|null,hookFil
 repeating,hookModule:"fallback"|"scripted"|"broken"},"inps":[{reason,hook,control,runFails,stable,
 launch:"task"|"submitError"|"otherError"|"none"}]}`
 Answer: `{"events":[{code,restarts,resub,runs,shutdown}], "asked":[bool]}` (one per input, chronological;
-`asked` = the hook module's `Restart` is called at that step). -/
+`asked` = the hook module's `Restart` is called at that step).
+`cfg` may instead carry the policy as WRITTEN in the document: `{"written":{maxRestarts:int|null,hookFile:str|null,
+hookOn:[names]|null},simulator,repeating,hookModule}`: the model's loader (`Restart.load`) gives the policy seen,
+returned as `"seen"`.
+Request `{"op":"mexec","fin":bool,"comps":[cfg + "file":name],"files":{name:hook answer},"inps":[{comp:n, ...inp}]}`
+(several components of one experiment, every hook file has one fixed answer):
+Answer `{"events":[{comp,code,restarts,resub,runs,shutdown}],"asked":[bool],"seen":[...]}`. -/
 open Lean Proto St4sd.Restart
 
 def parseReason (s : String) : Except String Reason :=
@@ -43,19 +49,46 @@ def parseLaunch (s : String) : Except String Launch :=
   | "none" => pure .none
   | _ => throw s!"unknown launch kind {s}"
 
-def parseCfg (j : Json) : Except String Cfg := do
+def parseWritten (j : Json) : Except String Written := do
+  let mr ← match j.getObjVal? "maxRestarts" with
+    | .ok Json.null => pure none
+    | .ok v => do pure (some (← v.getInt?))
+    | .error _ => pure none
+  let hf ← match j.getObjVal? "hookFile" with
+    | .ok Json.null => pure none
+    | .ok v => do pure (some (← v.getStr?))
+    | .error _ => pure none
+  let on ← match j.getObjVal? "hookOn" with
+    | .ok Json.null => pure none
+    | .ok _ => do pure (some (← (← getStrList j "hookOn").mapM parseReason))
+    | .error _ => pure none
+  return ⟨mr, hf, on⟩
+
+def seenJson (p : Seen) : Json :=
+  jobj [("maxRestarts", jopt jint p.maxRestarts), ("hookFile", jopt jstr p.hookFile),
+        ("hookOn", jarr (p.hookOn.map (fun r => jstr r.name)))]
+
+/-- configuration + the policy seen when the request carries the written policy -/
+def parseCfgW (j : Json) : Except String (Cfg × Option Seen) := do
+  match j.getObjVal? "written" with
+  | .ok w =>
+    let p := load (← parseWritten w)
+    return (p.cfg (← getBool j "simulator") (← getBool j "repeating") (← parseModule (← getStr j "hookModule")), some p)
+  | .error _ =>
   let mr ← match j.getObjVal? "maxRestarts" with
     | .ok Json.null => pure none
     | .ok v => do pure (some (← v.getInt?))
     | .error _ => pure none
   let on ← (← getStrList j "hookOn").mapM parseReason
-  return { maxRestarts := mr, hookFileNamed := ← getBool j "hookFileNamed", hookOn := on,
-           simulator := ← getBool j "simulator", repeating := ← getBool j "repeating",
-           hookModule := ← parseModule (← getStr j "hookModule") }
+  return ({ maxRestarts := mr, hookFileNamed := ← getBool j "hookFileNamed", hookOn := on,
+            simulator := ← getBool j "simulator", repeating := ← getBool j "repeating",
+            hookModule := ← parseModule (← getStr j "hookModule") }, none)
 
 def parseInp (j : Json) : Except String Inp := do
   let reason ← parseReason (← getStr j "reason")
-  let hook ← parseHook (← getStr j "hook")
+  let hook ← match j.getObjVal? "hook" with
+    | .ok (Json.str h) => parseHook h
+    | _ => pure HookAns.junk
   let control ← getBool j "control"
   let runFails ← getBool j "runFails"
   let stable ← getBool j "stable"
@@ -75,18 +108,46 @@ def askedLog (fin : Bool) (old : Bool) (cfg : Cfg) : St → List Inp → List Bo
     let s' := if old then (stepOld fin cfg s i).1 else (step fin cfg s i).1
     stepAsksHook cfg s i :: askedLog fin old cfg s' is
 
+/-- several components: is the component's hook file asked at that exit -/
+def maskedLog (fin : Bool) (files : String → HookAns) (cf : Nat → MCfg) : (Nat → St) → List MInp → List Bool
+  | _, [] => []
+  | ss, m :: ms =>
+    stepAsksHook (cf m.comp).cfg (ss m.comp) m.inp :: maskedLog fin files cf (mstep fin files cf ss m).1 ms
+
 def handle (j : Json) : Except String Json := do
   let op ← getStr j "op"
   match op with
   | "exec" =>
     let old ← getBool j "old"
     let fin ← getBool j "fin"
-    let cfg ← parseCfg (← j.getObjVal? "cfg")
+    let (cfg, seen) ← parseCfgW (← j.getObjVal? "cfg")
     let inps ← (← getArr j "inps").mapM parseInp
     let evs := if old then execOld fin cfg St.init inps else exec fin cfg St.init inps
     return jobj [("events", jarr (evs.map evJson)), ("asked", jarr ((askedLog fin old cfg St.init inps).map jbool)),
                  ("effMax", jint (effMax cfg)),
-                 ("schemaValid", jbool (schemaValid cfg))]
+                 ("schemaValid", jbool (schemaValid cfg)), ("seen", jopt seenJson seen)]
+  | "mexec" =>
+    let fin ← getBool j "fin"
+    let comps ← (← getArr j "comps").mapM (fun c => do
+      let (cfg, seen) ← parseCfgW c
+      pure ((⟨cfg, ← getStr c "file"⟩ : MCfg), seen))
+    let filesJ ← j.getObjVal? "files"
+    let fileList ← match filesJ with
+      | Json.obj kvs => kvs.toList.mapM (fun (k, v) => do pure (k, ← parseHook (← v.getStr?)))
+      | _ => throw "files must be an object"
+    let files : String → HookAns := fun f => ((fileList.find? (fun kv => kv.1 == f)).map (·.2)).getD .junk
+    let dflt : MCfg := ⟨⟨none, false, [], false, false, .fallback⟩, ""⟩
+    let cf : Nat → MCfg := fun k => ((comps.map (·.1))[k]?).getD dflt
+    let ms ← (← getArr j "inps").mapM (fun m => do
+      let k ← getNat m "comp"
+      if k ≥ comps.length then throw "component index out of range"
+      pure (⟨k, ← parseInp m⟩ : MInp))
+    let evs := mexec fin files cf (fun _ => St.init) ms
+    return jobj [("events", jarr (evs.map (fun e => jobj [("comp", jnat e.1), ("code", jstr e.2.code.name),
+                    ("restarts", jnat e.2.st.restarts), ("resub", jnat e.2.st.resub), ("runs", jnat e.2.st.runs),
+                    ("shutdown", jbool e.2.st.shutdown)]))),
+                 ("asked", jarr ((maskedLog fin files cf (fun _ => St.init) ms).map jbool)),
+                 ("seen", jarr (comps.map (fun c => jopt seenJson c.2)))]
   | _ => throw s!"unknown op {op}"
 
 def main : IO Unit := serve handle
